@@ -200,8 +200,8 @@ def template(ck, sh, mm, tname):
             exc = e
         return dict(vals=vals, rc=rc, out=out.getvalue(), err=err.getvalue(), exc=exc)
 
-    paths = symx.explore(fn, max_paths=300 if ck.tier == 'quick' else 2000, query_timeout_ms=5000, div_mode='fork',
-                         catch=(), wall_s=120 if ck.tier == 'quick' else 900)
+    paths = symx.explore(fn, max_paths=120 if ck.tier == 'quick' else 2000, query_timeout_ms=5000, div_mode='fork',
+                         catch=(), wall_s=40 if ck.tier == 'quick' else 900)
     ck.account(paths)
     ck.twin('template-' + tname, len(paths) > 0)
 
